@@ -35,7 +35,7 @@ func c05Cfg() *DeclCfg {
 		Kinds: []string{"bool", "int", "int", "int32", "uint", "float64", "string", "string", "duration", "[]int", "[]string", "[]string", "map[string]int", "map[string]string",
 			"*int", "*string", "um", "[]um", "func(string)", "func(int)", "filename", "uint8", "int64", "[]float64", "map[int]string", "ulist", "*[]string", "*[]int"},
 		MinOpts: 1, MaxOpts: 4, MaxGroups: 2, MaxSub: 2, MaxCmds: 2, MaxDepth: 2, Exec: true,
-		Env: true, Defaults: true, Optional: true, Choices: true, Hidden: true, Namespaces: true, Init: true, InitMulti: false, IniName: true,
+		Env: true, Defaults: true, Optional: true, Choices: true, Hidden: true, Namespaces: true, Init: true, InitMulti: false, IniName: true, PtrGroups: true,
 		ParserOpts: []uint{0, optHelpFlag, optHelpFlag | optPassDoubleDash, optIgnoreUnknown | optHelpFlag, optHelpFlag | optPrintErrors | optPassDoubleDash},
 	}
 }
@@ -134,6 +134,9 @@ func envTextFor(r *Rng, o *OptSpec) string {
 		if (baseKind(k) == "string" || k == "filename") && !isMapKind(k) && r.Chance(1, 6) {
 			return r.Pick([]string{"-O2", "-->", "--x", "-", "-1"}) // option-looking text is ordinary data in the environment
 		}
+		if baseKind(k) == "string" && !isMapKind(k) && len(o.Choices) == 0 && r.Chance(1, 8) {
+			return r.Pick([]string{"host=db", "a=b=c", "=x", "k=", "tier=web"}) // an equals sign in a value is an ordinary character
+		}
 		if baseKind(k) == "string" && !isMapKind(k) && o.EnvDelim != "" && len(o.Choices) == 0 && r.Chance(1, 8) {
 			return r.Pick(plainWords) + "\\" // a backslash in front of the delimiter is an ordinary character
 		}
@@ -174,7 +177,14 @@ func (propC05) Gen(r *Rng, idx int, tier string) *Scenario {
 	sc.Decl = c05Decl(r)
 	sc.World = WorldSpec{Cols: 80, Now: 1700000000, Env: map[string]BStr{}}
 	p := sc.C05
-	p.Shape = r.Fork("shape").Pick([]string{"ini-parse", "defini-parse", "parse-defini", "parse", "defini-parse", "parse-defini", "parse-parse", "ini-failparse-parse", "ini-parse-defini", "failini-parse", "parse-delim-parse", "parse-parse-defini"})
+	p.Shape = r.Fork("shape").Pick([]string{"ini-parse", "defini-parse", "parse-defini", "parse", "defini-parse", "parse-defini", "parse-parse", "ini-failparse-parse", "ini-parse-defini", "failini-parse", "parse-delim-parse", "parse-parse-defini", "parse-cfgcallback", "parse-same-parse"})
+	if p.Shape == "parse-cfgcallback" {
+		// a "--load-config FILE" option whose callback reads the INI text as defaults
+		if sc.Decl.Root == nil {
+			sc.Decl.Root = &GroupSpec{Name: "Application Options"}
+		}
+		sc.Decl.Root.Opts = append(sc.Decl.Root.Opts, &OptSpec{Field: "FLoadConfig", Kind: "func(string)", Long: "load-config", Desc: "read this configuration file"})
+	}
 	p.Plan = genPlan(r.Fork("plan"), sc.Decl)
 	ois := optInfos(sc.Decl)
 	if br := r.Fork("badcli"); br.Chance(1, 12) {
@@ -248,7 +258,7 @@ func (propC05) Gen(r *Rng, idx int, tier string) *Scenario {
 			}
 		}
 		// INI entries
-		if p.Shape != "parse" && p.Shape != "parse-parse" && p.Shape != "parse-delim-parse" && !o.NoIni && (sr.Chance(1, 3) || (o.IniName == sharedIniKey && sr.Chance(2, 3))) {
+		if p.Shape != "parse" && p.Shape != "parse-parse" && p.Shape != "parse-delim-parse" && p.Shape != "parse-same-parse" && !o.NoIni && (sr.Chance(1, 3) || (o.IniName == sharedIniKey && sr.Chance(2, 3))) {
 			n := 1
 			if isSliceKind(o.Kind) || isMapKind(o.Kind) {
 				n = sr.Range(1, 3)
@@ -519,6 +529,29 @@ func (propC05) Judge(sc *Scenario) *Verdict {
 		s2.Ops = append(s2.Ops, p.EnvMid...)
 		parseIdx = len(s2.Ops)
 		s2.Ops = append(s2.Ops, parseOp)
+	case "parse-cfgcallback":
+		// the INI text is read as defaults by the callback of --load-config, which
+		// stands somewhere on the command line: before it, after it or between the
+		// occurrences of the options the file also sets
+		txt := iniOp.Data
+		s2.CfgIni = &txt
+		argv := p.Plan.argv()
+		pos := safeInsertPositions(d, p.Plan)
+		at := 0
+		if len(pos) > 0 {
+			at = pos[int(hashStr(mustJSON(argv))%uint64(len(pos)))]
+		}
+		argv = append(append(append([]string{}, argv[:at]...), "--load-config=app.ini"), argv[at:]...)
+		s2.Ops = append(s2.Ops, p.EnvMid...)
+		parseIdx = len(s2.Ops)
+		s2.Ops = append(s2.Ops, Op{Kind: "parse", Argv: bstrs(argv)})
+	case "parse-same-parse":
+		// the same command line handed to the same parser twice: what it gives is
+		// what it gives once (explicit values replace, defaults are applied afresh)
+		s2.Ops = append(s2.Ops, parseOp)
+		s2.Ops = append(s2.Ops, p.EnvMid...)
+		parseIdx = len(s2.Ops)
+		s2.Ops = append(s2.Ops, parseOp)
 	case "parse-parse-defini":
 		// a reused parser (first ParseArgs with an empty command line), then the judged
 		// ParseArgs, then the INI text read as defaults: the command line keeps its rank
@@ -580,7 +613,7 @@ func (propC05) Judge(sc *Scenario) *Verdict {
 		}
 	}
 	firstParseBad := ""
-	if p.Shape == "parse-parse" || p.Shape == "parse-delim-parse" || p.Shape == "parse-parse-defini" {
+	if p.Shape == "parse-parse" || p.Shape == "parse-delim-parse" || p.Shape == "parse-parse-defini" || p.Shape == "parse-same-parse" {
 		// what the first ParseArgs (empty command line, environment Env0) leaves in the fields
 		env1 := map[string]string{}
 		for k, val := range p.Env0 {
@@ -590,7 +623,11 @@ func (propC05) Judge(sc *Scenario) *Verdict {
 			if isFuncKind(oi.O.Kind) {
 				continue
 			}
-			src := c05Model(oi, d, nil, nil, env1)
+			var cli1 map[string][]string
+			if p.Shape == "parse-same-parse" {
+				cli1 = cli // the first parse sees the same command line
+			}
+			src := c05Model(oi, d, cli1, nil, env1)
 			if p.Shape == "parse-delim-parse" && oi.O.Env != "" {
 				// during the first parse the variable name is spelt with the "+" delimiter
 				key1 := strings.Join(append(append([]string{}, oi.EnvNS...), oi.O.Env), "+")
@@ -653,7 +690,7 @@ func (propC05) Judge(sc *Scenario) *Verdict {
 		}
 	}
 	firstRejected := false
-	if p.Shape == "parse-parse" || p.Shape == "parse-delim-parse" || p.Shape == "parse-parse-defini" {
+	if p.Shape == "parse-parse" || p.Shape == "parse-delim-parse" || p.Shape == "parse-parse-defini" || p.Shape == "parse-same-parse" {
 		for i := 0; i < parseIdx; i++ {
 			if o.Ops[i].Op == "parse" && o.Ops[i].Err != "" {
 				firstRejected = true
@@ -887,7 +924,7 @@ func (propC05) Judge(sc *Scenario) *Verdict {
 			for _, s := range present {
 				has[s] = true
 			}
-			if p.Shape == "parse-parse" || p.Shape == "parse-delim-parse" || p.Shape == "ini-parse-defini" || p.Shape == "failini-parse" || p.Shape == "parse-parse-defini" {
+			if p.Shape == "parse-parse" || p.Shape == "parse-delim-parse" || p.Shape == "ini-parse-defini" || p.Shape == "failini-parse" || p.Shape == "parse-parse-defini" || p.Shape == "parse-cfgcallback" || p.Shape == "parse-same-parse" {
 				continue // an earlier operation already ran the callbacks for its sources
 			}
 			if has["cli"] && has["ini"] {
